@@ -30,7 +30,7 @@ def Ctx.joinTopic (c : Ctx) (a : Actor) (tn : TName) : Ctx × Option Topic :=
 def Ctx.subscriptionReply (c : Ctx) (t : Topic) (a : Actor) (mode : String) (priv : PrivArg) (created newsub : Bool)
     (userGiven : Bool) : Ctx × Topic × Bool :=
   let tn := t.name
-  let rn := if created then "?new" else tn
+  let rn := if created then (if t.isChan then "?nch" else "?new") else tn
   let newsub := newsub || (t.pud? a.uid).isNone
   if userGiven then (c.emit a.sid (ctrl 400 rn), t, false) else
   let (c, t, r) := c.thisUserSub t a mode priv newsub rn
@@ -56,7 +56,7 @@ def Ctx.subscriptionReply (c : Ctx) (t : Topic) (a : Actor) (mode : String) (pri
     let c := c.emit a.sid (ctrl 200 tn params)
     -- sendImmediateSubNotifications: push to the group for a new subscription
     let c := if res.modeChanged.isSome ∧ newsub ∧ (t.pud? a.uid).isSome then
-        let rcpt := ((t.perUser.filter (fun (_, p) => isReader (eff p) ∧ isPresencer (eff p) ∧ !p.deleted)).map (·.1)).mergeSort (· ≤ ·)
+        let rcpt := ((t.perUser.filter (fun (_, p) => isReader (eff p) ∧ isPresencer (eff p) ∧ !p.deleted ∧ !p.isChan)).map (·.1)).mergeSort (· ≤ ·)
         if rcpt.isEmpty then c else
         { c with pushes := c.pushes ++ [s!"push what=sub topic={tn} seq={t.lastId} to=\{{",".intercalate rcpt}} chan=-"] }
       else c
@@ -115,9 +115,9 @@ def Ctx.opNewGrp (c : Ctx) (a : Actor) (o : NewGrpOpts) : Ctx :=
     if o.want ≠ "" then (unmarshalKeep modeCFull o.want).1 ||| modeJoin ||| modeOwner else modeCFull
   let row : TopicRow := { name := tn, owner := a.uid, auth := auth, anon := anon, pub := pubTok, chan := o.chan }
   let (c, ok) := c.call "TopicCreate" (fun w => { w.setRow row with nextT := w.nextT + 1 })
-  if !ok then c.emit a.sid (ctrl 500 (if c.w.nextT = c.w.nextT then "?new" else "")) else
+  if !ok then c.emit a.sid (ctrl 500 (if o.chan then "?nch" else "?new")) else
   let (c, ok) := c.subsCreate tn (newSubRow a.uid want modeCFull privTok)
-  if !ok then c.emit a.sid (ctrl 500 "?new") else
+  if !ok then c.emit a.sid (ctrl 500 (if o.chan then "?nch" else "?new")) else
   let t : Topic := { name := tn, owner := a.uid, auth := auth, anon := anon, pub := pubTok,
                      perUser := [(a.uid, { want := want, given := modeCFull, priv := privTok })], isChan := o.chan }
   let c := c.putLive t
